@@ -7,14 +7,17 @@ sys.path.insert(0, HERE)
 from gdslint.ctx import Ctx
 from gdslint import props
 # rules whose instance count is incidental (number of call sites): floor at 60% of the counted number
-SITE_RULES = {'G2', 'G3', 'LK1', 'ENC-b', 'ENC-c', 'ENC-d', 'SYM', 'IT1', 'FLAV', 'OWN3-SCAN', 'LK3-SCAN', 'SIB', 'SIB-IMPL', 'DE2', 'OWN2'}
+SITE_RULES = {'G2', 'G3', 'LK1', 'LK2', 'ENC-b', 'ENC-c', 'ENC-d', 'SYM', 'IT1', 'FLAV', 'OWN3-SCAN', 'LK3-SCAN', 'SIB', 'SIB-SEM', 'SIB-IMPL', 'DE2', 'OWN2', 'MAP'}
 ctx = Ctx(sys.argv[1])
 out = {}
 for pid, spec in props.PROPS.items():
     c = collections.Counter()
+    okc = collections.Counter()
     for name, fn in spec['rules']:
         for o in fn(ctx):
             c[o['rule']] += 1
-    out[pid] = {r: (n if r not in SITE_RULES else int(n * 0.6)) for r, n in sorted(c.items()) if r != 'FLOOR'}
+            okc[o['rule']] += 1 if o['ok'] else 0
+    # a rule that only ever reports failures (LK3: one obligation per offending site) has no anchor count to defend
+    out[pid] = {r: (n if r not in SITE_RULES else int(n * 0.6)) for r, n in sorted(c.items()) if r != 'FLOOR' and okc[r] > 0}
 json.dump(out, open(os.path.join(HERE, 'gdslint', 'floors.json'), 'w'), indent=1, sort_keys=True)
 print({p: sum(v.values()) for p, v in out.items()})
